@@ -23,7 +23,7 @@ import (
 func TestMain(m *testing.M) {
 	kit.Main(m, "C17", "fault_enumeration",
 		"both AWS KMS plugins built through their public constructors (v1: NewAWS then the exported Clients[i].KMS replaced; v2: Builder + WithKMSFactory) over fake regional endpoints with their own master keys, call log and retained plaintext slices. "+
-			"ENUMERATED: 1..3 regions (thorough: 4), every preferred region (and a preferred region that is not configured), every subset of regions failing GenerateDataKey x every subset failing Encrypt at wrap time, then for every envelope every preferred region of the unwrapper x every subset failing Decrypt x every subset returning wrong bytes, wrapper and unwrapper each in {v1, v2} (envelopes are exchanged between the plugins). "+
+			"ENUMERATED: 1..3 regions (thorough: 4), every preferred region (and a preferred region that is not configured), every subset of regions failing GenerateDataKey x every subset failing Encrypt at wrap time, then for every envelope every preferred region of the unwrapper x every subset failing Decrypt x every subset returning wrong bytes, wrapper and unwrapper each in {v1, v2} (envelopes are exchanged between the plugins). The same enumeration (fewer regions) with regional failures shaped like per-call timeouts (errors wrapping context.DeadlineExceeded / Canceled while the caller's context is alive) and with the v2 plugin built from an application aws.Config whose Region is another configured KMS region. "+
 			"Oracle from the fakes' call logs: wrap succeeds iff some region can generate, generation is attempted preferred-first, each region at most once, stopping at the first success; the envelope (documented JSON shape) has exactly one entry for the generating region and one per region whose Encrypt succeeded; "+
 			"unwrap returns the identical key bytes iff some configured region with an entry can decrypt correctly, is attempted preferred-first over regions that have entries, never on regions without one, stops at the first success; the data-key plaintext handed out by the generating region is zero when EncryptKey returns (the unwrap-side wipe belongs to C10). "+
 			"One evaluation = one wrap or unwrap case. Non-trivial = at least one region failed in the case; all enumerated cases are distinct by construction",
@@ -57,14 +57,24 @@ func build(kind string, w *fakes.KMSWorld, regions []string, pref string) (*plug
 		}
 		return &plugin{"v1", k, pref, regions}, nil
 	default:
-		k, err := v2kms.NewBuilder(aead.NewAES256GCM(), arn).WithPreferredRegion(pref).WithAWSConfig(awsv2.Config{}).
+		// "v2cfg": the application passes its own aws.Config whose Region is another configured KMS region
+		cfg := awsv2.Config{}
+		if kind == "v2cfg" {
+			for _, r := range regions {
+				if r != pref {
+					cfg.Region = r
+					break
+				}
+			}
+		}
+		k, err := v2kms.NewBuilder(aead.NewAES256GCM(), arn).WithPreferredRegion(pref).WithAWSConfig(cfg).
 			WithKMSFactory(func(cfg awsv2.Config, _ ...func(*kmsv2svc.Options)) v2kms.AWSClient {
 				return fakes.KMSV2{R: w.Regions[cfg.Region]}
 			}).Build()
 		if err != nil {
 			return nil, err
 		}
-		return &plugin{"v2", k, pref, regions}, nil
+		return &plugin{kind, k, pref, regions}, nil
 	}
 }
 
@@ -135,14 +145,28 @@ func fail(t *testing.T, c caseDesc, w *fakes.KMSWorld, format string, args ...an
 }
 
 func TestEnumerateRegionFailures(t *testing.T) {
+	enumerateRegionFailures(t, kit.Pick(3, 4), nil, []string{"v1", "v2"})
+}
+
+// TestEnumerateErrorShapesAndConfigs: the same enumeration (up to 2 / 3 regions) with regional
+// failures that look like timeouts of the call itself (errors wrapping context.DeadlineExceeded /
+// context.Canceled while the caller's context is alive - a failing region like any other), and
+// with the v2 plugin built from an application aws.Config whose Region is another KMS region.
+func TestEnumerateErrorShapesAndConfigs(t *testing.T) {
+	enumerateRegionFailures(t, kit.Pick(2, 3), fmt.Errorf("operation error KMS: https response error: request canceled: %w", context.DeadlineExceeded), []string{"v1", "v2"})
+	enumerateRegionFailures(t, kit.Pick(2, 3), fmt.Errorf("operation error KMS: %w", context.Canceled), []string{"v2"})
+	enumerateRegionFailures(t, kit.Pick(3, 3), nil, []string{"v2cfg"})
+}
+
+func enumerateRegionFailures(t *testing.T, maxN int, failErr error, kinds []string) {
 	shard, shards := kit.Shard()
-	maxN := kit.Pick(3, 4)
 	unit := 0
 	var total, nontrivial int64
 	for n := 1; n <= maxN; n++ {
 		regions := allRegions[:n]
 		// one set of regional endpoints and one plugin instance per (kind, preferred region); cases only flip fault switches
 		w := fakes.NewKMSWorld(regions)
+		w.FailErr = failErr
 		plugins := map[string]*plugin{}
 		getPlugin := func(kind, pref string) (*plugin, error) {
 			if p, ok := plugins[kind+"|"+pref]; ok {
@@ -154,7 +178,7 @@ func TestEnumerateRegionFailures(t *testing.T) {
 			}
 			return p, err
 		}
-		for _, wrapper := range []string{"v1", "v2"} {
+		for _, wrapper := range kinds {
 			for _, wrapPref := range append(append([]string{}, regions...), "nowhere-1") {
 				for genMask := 0; genMask < 1<<n; genMask++ {
 					unit++
@@ -186,7 +210,7 @@ func TestEnumerateRegionFailures(t *testing.T) {
 							continue
 						}
 						// unwrap phase
-						for _, unwrapper := range []string{"v1", "v2"} {
+						for _, unwrapper := range kinds {
 							for _, unwrapPref := range append(append([]string{}, regions...), "nowhere-1") {
 								for decMask := 0; decMask < 1<<n; decMask++ {
 									for wrongMask := 0; wrongMask < 1<<n; wrongMask++ {
@@ -222,7 +246,9 @@ func TestEnumerateRegionFailures(t *testing.T) {
 		}
 	}
 	kit.Rec.Enumerated(total, nontrivial)
-	kit.Rec.Extra("max_regions", maxN)
+	if failErr == nil && len(kinds) == 2 {
+		kit.Rec.Extra("max_regions", maxN)
+	}
 	kit.Rec.SetExhaustive(true)
 }
 
